@@ -51,6 +51,17 @@ def run(rep, tier, seed, replay=None):
                     jobs.append((dict(ed=4, tmpl=tmpl, subsets=subs, same=True), comp))
                 except gen.Reject:
                     pass
+        # 2 09 YYY (IEEE 754 values; library extension of the edition 5 draft, outside the Coq model): the oracle for these
+        # is the property itself evaluated on the library (range == slice of the full decode).  Equal columns matter: the
+        # library writes them as R0 + NBINC=0 with no per-subset values, so there is nothing to skip.
+        for comp in (1, 1, 0):
+            for tmpl in ([12101, 209032, 12101, 7004, 209000, 12101], [209064, 12101, 209000, 20011], [1015, 209032, 10004, 209000, 204008, 31021, 12101, 204000]):
+                for mode in ("equal", None):
+                    try:
+                        subs = gen.gen_dataset(rng, ctx.T, 5, tmpl, rng.choice([3, 4, 6]), same_structure=True, column_mode=mode)
+                        jobs.append((dict(ed=5, tmpl=tmpl, subsets=subs, same=True, no_model=True), comp))
+                    except gen.Reject:
+                        pass
     el = [gen.case_line(c["ed"], comp, c["tmpl"], c["subsets"]) for c, comp in jobs]
     eo = ctx.run_c(el)
     codecrun.crash_violation(rep, "C14", ctx, el, eo, "encoding")
@@ -79,6 +90,8 @@ def run(rep, tier, seed, replay=None):
         rep.count((msg[:80], len(msg), a, b))
         fl = fixed_length(c)
         feat[("compressed" if comp else ("plain_fixed" if fl else "plain_delayed"))] += 1
+        if c.get("no_model"):
+            feat["ieee_209_columns"] += 1
         if a == b:
             feat["single_subset"] += 1
         if a == 1 and b == len(c["subsets"]):
@@ -114,7 +127,7 @@ def run(rep, tier, seed, replay=None):
         if ab is None:
             continue
         fl = fixed_length(c)
-        if not comp and not fl:
+        if (not comp and not fl) or c.get("no_model"):
             continue
         try:
             p = bufrmsg.parse(bytes.fromhex(msg))
